@@ -12,7 +12,8 @@ def on(c,r):
     if r.get('verdict')=='inconclusive': groups[('INCONCLUSIVE',str(r.get('why'))[:80])].append((c,r,{'msg':r.get('tb','')}))
     for v in r.get('violations',[]):
         groups[keyf(c,r,v)].append((c,r,v))
-run_cases(mod.__name__, itertools.islice(mod.generate('quick',int(__import__('os').environ.get('VERIF_SEED','0'))), n), on_result=on, timeout=getattr(mod,'TIMEOUT',60))
+_g=frozenset(x for x in __import__('os').environ.get('GATED','').split(',') if x)
+run_cases(mod.__name__, itertools.islice(mod.generate('quick',int(__import__('os').environ.get('VERIF_SEED','0')),**({'gated':_g} if _g else {})), n), on_result=on, timeout=getattr(mod,'TIMEOUT',60))
 print(dict(tot))
 for k,lst in sorted(groups.items(), key=lambda kv:-len(kv[1])):
     print(len(lst), k)
